@@ -203,7 +203,12 @@ type FaultClient struct {
 	OnCommit  func(name string, lockID int64) error // return error to drop the request before it is sent
 	AfterHalt func(name string, lockID int64, hl *litefs.HaltLock, err error) (*litefs.HaltLock, error)
 	Calls     atomic.Int64
+	held      atomic.Bool
 }
+
+// Hold stops the delivery of stream data to the node without disconnecting it; Resume continues.
+func (c *FaultClient) Hold()   { c.held.Store(true) }
+func (c *FaultClient) Resume() { c.held.Store(false) }
 
 // NewFaultClient returns a client around lhttp.NewClient().
 func NewFaultClient() *FaultClient { return &FaultClient{Inner: lhttp.NewClient()} }
@@ -267,7 +272,7 @@ func (c *FaultClient) Stream(ctx context.Context, primaryURL string, nodeID uint
 	if err != nil {
 		return nil, err
 	}
-	fs := &faultStream{Stream: st}
+	fs := &faultStream{Stream: st, c: c}
 	c.mu.Lock()
 	c.streams = append(c.streams, fs)
 	c.mu.Unlock()
@@ -277,6 +282,16 @@ func (c *FaultClient) Stream(ctx context.Context, primaryURL string, nodeID uint
 type faultStream struct {
 	litefs.Stream
 	once sync.Once
+	c    *FaultClient
+}
+
+// Read delivers nothing while the client is on hold: the node stays connected to its primary (it keeps its
+// primary info) but falls behind.
+func (s *faultStream) Read(p []byte) (int, error) {
+	for s.c != nil && s.c.held.Load() {
+		time.Sleep(200 * time.Microsecond)
+	}
+	return s.Stream.Read(p)
 }
 
 func (s *faultStream) Close() error {
